@@ -408,6 +408,9 @@ struct Seen {
     ttx: u64,
 }
 struct UpCfg {
+    origin: std::time::Instant,
+    /// when the last FIRST transmission of a UDP-client query reached the upstream (us since origin)
+    last_first_us: AtomicU64,
     cfg: HashMap<u64, Q>,
     seen: Mutex<HashMap<u64, Seen>>,
 }
@@ -434,6 +437,9 @@ async fn udp_upstream(sock: Arc<UdpSocket>, up: Arc<UpCfg>) {
             e.utx += 1;
             e.utx
         };
+        if k == 1 {
+            up.last_first_us.fetch_max(up.origin.elapsed().as_micros() as u64, Ordering::SeqCst);
+        }
         if k > 4 || (c.mask >> (k - 1)) & 1 == 1 {
             continue; // lost
         }
@@ -536,6 +542,11 @@ struct Wave {
     ready: AtomicUsize,
     go: tokio::sync::watch::Receiver<bool>,
     t_hi: AtomicU64,
+    /// process-wide monotonic origin; `released_us` = when the queries were released,
+    /// `moved_us` = when the sampler first saw the adaptive delay differ from t0 (u64::MAX: never)
+    origin: std::time::Instant,
+    released_us: AtomicU64,
+    moved_us: AtomicU64,
 }
 
 async fn client(
@@ -583,6 +594,11 @@ async fn client(
                 let _ = s.flush().await;
                 tokio::time::sleep(Duration::from_millis(60)).await;
                 let _ = s.write_all(&b[1..]).await;
+            } else if q.proto == 3 {
+                // two queries on one connection (only through the corpus: known finding class 2)
+                let mut bb = b.clone();
+                bb.extend(&b);
+                let _ = s.write_all(&bb).await;
             } else {
                 let _ = s.write_all(&b).await;
             }
@@ -620,11 +636,13 @@ async fn bind_upstream() -> (Arc<UdpSocket>, TcpListener, SocketAddr) {
     }
 }
 
-async fn run_batch(wave: Arc<Wave>, qs: Vec<Q>) -> Vec<(Obs, Seen)> {
+async fn run_batch(wave: Arc<Wave>, qs: Vec<Q>) -> (u64, Vec<(Obs, Seen)>) {
     use erbium_net::addr::WithPort as _;
     let (usock, tl, upaddr) = bind_upstream().await;
     let nums: Vec<u64> = qs.iter().map(|_| fresh_q()).collect();
     let up = Arc::new(UpCfg {
+        origin: wave.origin,
+        last_first_us: AtomicU64::new(0),
         cfg: nums.iter().cloned().zip(qs.iter().cloned()).collect(),
         seen: Default::default(),
     });
@@ -690,7 +708,7 @@ async fn run_batch(wave: Arc<Wave>, qs: Vec<Q>) -> Vec<(Obs, Seen)> {
     t_svc.abort();
     t_udp.abort();
     t_tcp.abort();
-    out
+    (up.last_first_us.load(Ordering::SeqCst), out)
 }
 
 fn put_batch(t0: u64, t_hi: u64, slack: u64, qs: &[Q], out: &[(Obs, Seen)]) -> Toks {
@@ -886,9 +904,16 @@ fn run(args: &Args, out: &mut dyn Write) -> Stats {
         let t0 = wave[0].0;
         let lag_us = Arc::new(AtomicU64::new(0));
         let (go_tx, go_rx) = tokio::sync::watch::channel(false);
-        let ctl = Arc::new(Wave { ready: AtomicUsize::new(0), go: go_rx, t_hi: AtomicU64::new(t0) });
+        let ctl = Arc::new(Wave {
+            ready: AtomicUsize::new(0),
+            go: go_rx,
+            t_hi: AtomicU64::new(t0),
+            origin: std::time::Instant::now(),
+            released_us: AtomicU64::new(0),
+            moved_us: AtomicU64::new(u64::MAX),
+        });
         let total: usize = wave.iter().map(|(_, q)| q.len()).sum();
-        let res: Vec<Vec<(Obs, Seen)>> = rt.block_on(async {
+        let res: Vec<(u64, Vec<(Obs, Seen)>)> = rt.block_on(async {
             let hs: Vec<_> = wave.iter().map(|(_, q)| tokio::spawn(run_batch(ctl.clone(), q.clone()))).collect();
             // every service is listening and every client has its socket (TCP: is connected);
             // let things settle, then release all queries at once
@@ -909,12 +934,17 @@ fn run(args: &Args, out: &mut dyn Write) -> Stats {
                     tokio::time::sleep(Duration::from_millis(5)).await;
                     let over = t.elapsed().as_micros() as u64;
                     lag.fetch_max(over.saturating_sub(5000), Ordering::Relaxed);
-                    ctl2.t_hi.fetch_max(hk::dns_timeout_ms().await, Ordering::SeqCst);
+                    let cur = hk::dns_timeout_ms().await;
+                    ctl2.t_hi.fetch_max(cur, Ordering::SeqCst);
+                    if cur != t0 {
+                        ctl2.moved_us.fetch_min(ctl2.origin.elapsed().as_micros() as u64, Ordering::SeqCst);
+                    }
                     if over > 55000 && std::env::var("C07_DEBUG").is_ok() {
                         eprintln!("canary: +{} ms at {} ms", over / 1000, wave_start.elapsed().as_millis());
                     }
                 }
             });
+            ctl.released_us.store(ctl.origin.elapsed().as_micros() as u64, Ordering::SeqCst);
             let _ = go_tx.send(true);
             let mut r = vec![];
             for h in hs {
@@ -930,13 +960,23 @@ fn run(args: &Args, out: &mut dyn Write) -> Stats {
         if t_hi != t0 {
             stats.bump("batch.waves-where-the-adaptive-delay-moved");
         }
-        for ((_, q), o) in wave.iter().zip(res.iter()) {
+        let lag_ms = lag_us.load(Ordering::Relaxed) / 1000;
+        let moved_us = ctl.moved_us.load(Ordering::SeqCst);
+        for ((_, q), (last_first_us, o)) in wave.iter().zip(res.iter()) {
             stats.bump("batch");
+            // every query reads the adaptive delay before its first transmission: if all first
+            // transmissions of this batch reached the upstream clearly before the delay was first
+            // seen to move (sampling period 5 ms + the largest lag + 20 ms margin), they all read t0
+            let all_read_t0 = moved_us == u64::MAX || last_first_us + 1000 * (5 + lag_ms + 20) < moved_us;
+            let t_hi_b = if all_read_t0 { t0 } else { t_hi };
+            if !all_read_t0 {
+                stats.bump("batch.batches-that-may-have-read-a-moved-delay");
+            }
             if o.len() == q.len() {
-                writeln!(out, "{}", put_batch(t0, t_hi, slack, q, o).0).unwrap();
+                writeln!(out, "{}", put_batch(t0, t_hi_b, slack, q, o).0).unwrap();
             } else {
                 // the batch itself failed (harness problem): report as undecodable
-                writeln!(out, "4 {} {} {} {}", t0, t_hi, slack, q.len()).unwrap();
+                writeln!(out, "4 {} {} {} {}", t0, t_hi_b, slack, q.len()).unwrap();
             }
         }
     }
